@@ -16,12 +16,12 @@ Local Notation run_top := (run_top lim faults fixed).
 
 Lemma exec_S : forall f nd s, exec (S f) nd s = node_step lim faults fixed (exec f) (leave f) (run_top f) nd s.
 Proof. reflexivity. Qed.
-Lemma run_top_S : forall f body s, run_top (S f) body s = run_top_step fixed (exec f) (leave f) body s.
+Lemma run_top_S : forall f body s, run_top (S f) body s = run_top_step (exec f) (leave f) body s.
 Proof. reflexivity. Qed.
 Lemma leave_S : forall f s, leave (S f) s =
   match jq s with
   | [] => (s, ONorm)
-  | js => match run_batch lim fixed (exec f) js (set_jq [] s) with
+  | js => match run_batch lim (exec f) js (set_jq [] s) with
           | (s1, ONorm) => leave f s1
           | r => r
           end
@@ -41,7 +41,7 @@ Proof.
       { apply GInv_ret; [reflexivity | intros _; reflexivity]. }
       pose proof (run_batch_inv lim fixed (exec f) IHe (j :: js) (set_jq [] s)) as G.
       apply (GInv_regs_base fixed PostL s (set_jq [] s) _ PostL_base eq_refl eq_refl) in G.
-      destruct (run_batch lim fixed (exec f) (j :: js) (set_jq [] s)) as [s1 o].
+      destruct (run_batch lim (exec f) (j :: js) (set_jq [] s)) as [s1 o].
       destruct o; try exact G.
       apply Chain_GInv.
       eapply (Chain_bind fixed PostL s s1 s1 _ (PostL s s1 ONorm)); [exact G | reflexivity | apply IHl | | ].
@@ -244,7 +244,7 @@ Lemma handleThrow_restores : forall p tf s0 above below s xs ys k,
   sp s' = (if negb (t_marker tf) && t_catch tf then sp s0 + 1 else sp s0) /\
   (prg s', sb s', args s') = bottom_regs xs s /\
   ts s' = flagged tf :: below /\
-  log s' = (if catchable p then log s ++ map close_ev ys else log s) /\
+  log s' = log s /\
   leaked s' = leaked s /\ jq s' = jq s /\ intr s' = intr s /\ pcount s' = pcount s /\ trace s' = trace s /\
   snd r = (if t_marker tf then OUnwound p
            else if t_catch tf then OCaught (length below) HCatch p else OCaught (length below) HFin p).
@@ -258,7 +258,7 @@ Lemma handleThrow_idem : forall p tf s0 above below s xs ys k,
   ts s = above ++ tf :: below -> extends s0 s xs ys k ->
   let s1 := fst (handle_throw p s) in
   regs (fst (handle_throw p s1)) = regs s1 /\ snd (handle_throw p s1) = snd (handle_throw p s) /\
-  log (fst (handle_throw p s1)) = (if catchable p then log s1 ++ [] else log s1).
+  log (fst (handle_throw p s1)) = log s1.
 Proof.
   intros p tf s0 above below s xs ys k Sn Mk Ab Hts Hx s1.
   assert (Ns : skippable p tf = false).
@@ -284,9 +284,63 @@ Proof. intros. apply uncatchable_loop. auto. Qed.
 Lemma handleThrow_shrinks : forall p s, (length (ts (fst (handle_throw p s))) <= length (ts s))%nat.
 Proof. intros. apply handle_loop_shrinks. Qed.
 
-(* ---- the former findings F16, F17, F21, F22 (all repaired in /repo): their witnesses are idle ---- *)
-Definition idle_after (lim : option nat) (faults : list (nat * fkind)) (a : api) : bool :=
-  idle_full (fst (api_exec lim faults true 80 a init)).
+(* ---- handleThrow with restoreStacks' walk: the iterators are closed BEFORE the stacks are truncated ---- *)
+Lemma close_items_native_log : forall lim ex items s,
+  Forall (fun it : irec => snd it = None) items ->
+  close_items lim ex items s = (set_log (log s ++ map (fun it => close_ev (fst it)) items) s, ONorm).
+Proof.
+  intros lim ex. induction items as [|[id r] items IH]; intros s F; simpl.
+  - rewrite app_nil_r. destruct s; reflexivity.
+  - inversion F; subst. simpl in H1. subst r. rewrite IH by auto. cbn. rewrite <- app_assoc. reflexivity.
+Qed.
+
+Lemma raise_closes_then_truncates : forall lim faults fixed fuel inrec p s tf rest,
+  catchable p = true -> target p (ts s) = Some (tf, rest) ->
+  let sm := set_ts (tf :: rest) (restore_regs tf s) in
+  let dropped := firstn (length (its s) - t_iter tf) (its s) in
+  let r := close_items lim (Model.exec lim faults fixed fuel) dropped sm in
+  (* the walk starts with the iterator stack untouched: whatever a return() call iterates is pushed above the tail *)
+  its sm = its s /\
+  raise lim fixed (Model.exec lim faults fixed fuel) inrec p s =
+    match r with
+    | (s1, ONorm) => handle_throw p s1
+    | (s1, OPanic p') => if inrec && negb fixed then (deviate 23 s1, OEscaped p') else handle_throw p' (with_regs_of s s1)
+    | (s1, _) => (s1, OStuck)
+    end /\
+  (* every return() call that comes back restores every register and stack; only then the stacks are cut *)
+  (snd r = ONorm -> dv (fst r) = dv s ->
+     regs (fst r) = regs sm /\
+     its (fst (handle_throw p (fst r))) = low (t_iter tf) (its s) /\
+     refs (fst (handle_throw p (fst r))) = Nat.min (t_ref tf) (refs s)).
+Proof.
+  intros lim faults fixed fuel inrec p s tf rest Hc Ht sm dropped r.
+  destruct (restore_regs_fields tf s) as (f1 & f2 & f3 & f4 & f5 & f6 & f7 & _).
+  assert (Hits : its sm = its s) by (unfold sm; cbn -[restore_regs]; exact f1).
+  split; [exact Hits|]. split.
+  - unfold raise, close_phase. rewrite Hc, Ht. fold sm. rewrite Hits. fold dropped. fold r. reflexivity.
+  - intros Hn D.
+    destruct (close_items_inv lim fixed (Model.exec lim faults fixed fuel) (exec_inv lim faults fixed fuel) dropped sm) as (A & B & C).
+    fold r in A, B, C. rewrite Hn in C.
+    assert (Dm : dv sm = dv s) by (unfold sm, dv; cbn -[restore_regs]; rewrite f7; reflexivity).
+    assert (R : regs (fst r) = regs sm) by (apply C; lia).
+    split; [exact R|].
+    destruct (target_spec p (ts s) tf rest Ht) as (above & _ & _ & Ns).
+    apply regs_inv in R. destruct R as (c1 & c2 & c3 & c4 & c5 & c6 & c7 & c8 & c9).
+    unfold handle_throw. rewrite c7. unfold sm. cbn [ts set_ts handle_loop]. rewrite Ns.
+    assert (Hi : its (restore_at tf (fst r)) = low (t_iter tf) (its s) /\ refs (restore_at tf (fst r)) = Nat.min (t_ref tf) (refs s)).
+    { unfold restore_at, restore_stacks. cbn -[low Nat.min restore_regs].
+      destruct (restore_regs_fields tf (fst r)) as (g1 & g2 & _). rewrite g1, g2, c8, c9, Hits.
+      unfold sm. cbn -[restore_regs]. rewrite f2. auto. }
+    destruct Hi as (Hi1 & Hi2).
+    destruct (t_marker tf); [|destruct (t_catch tf)]; cbn -[restore_at low Nat.min]; auto.
+Qed.
+
+(* ---- the former findings F16, F17, F21, F22 (all repaired in /repo): their witnesses are idle on the current
+   algorithm; the open finding F23 is exhibited by the faithful model ---- *)
+Definition idle_after (lim : option nat) (faults : list (nat * fkind)) (fixed : bool) (a : api) : bool :=
+  idle_full (fst (api_exec lim faults fixed 80 a init)).
+Definition deviations (lim : option nat) (faults : list (nat * fkind)) (a : api) : list nat :=
+  leaked (fst (api_exec lim faults false 80 a init)).
 
 Definition w16 := ARun [Gen [Probe]].                        (* gen().next() interrupted inside the body *)
 Definition w16b := ARun [Call [Gen [Probe]]].                (* limit 3: overflow inside the resumption *)
@@ -294,27 +348,35 @@ Definition w16c := ARun [Async [] [Probe]].                  (* async continuati
 Definition w17 := ARun [Call []].                            (* limit 0: top-level stack overflow *)
 Definition w21 := ARun [Call [Native [NRun false [Probe]]]]. (* limit 2: re-entrant RunString at the limit *)
 Definition w22 := ARun [Then [Effect 7]; Probe].             (* foreign Go panic with a job pending *)
+(* for (x of it) { probe() }: the probe throws (a Go panic), it.return() calls probe() which interrupts *)
+Definition w23 := ARun [ForOf 1 [] 1 [Probe] (Some [Probe; Effect 1001])].
 
 Lemma former_findings_repaired :
-  idle_after None [(0%nat, FIntr)] w16 = true /\ idle_after (Some 3%nat) [] w16b = true /\
-  idle_after None [(0%nat, FIntr)] w16c = true /\ idle_after (Some 0%nat) [] w17 = true /\
-  idle_after (Some 2%nat) [] w21 = true /\ idle_after None [(0%nat, FGo)] w22 = true.
+  idle_after None [(0%nat, FIntr)] false w16 = true /\ idle_after (Some 3%nat) [] false w16b = true /\
+  idle_after None [(0%nat, FIntr)] false w16c = true /\ idle_after (Some 0%nat) [] false w17 = true /\
+  idle_after (Some 2%nat) [] false w21 = true /\ idle_after None [(0%nat, FGo)] false w22 = true.
 Proof. vm_compute. auto 10. Qed.
 
-(* ---- the job queue after an outermost RunProgram / Callable (current algorithm) ---- *)
+Lemma idle_refuted_F23 :
+  idle_after None [(0%nat, FThrow); (1%nat, FIntr)] false w23 = false /\
+  idle_after None [(0%nat, FThrow); (1%nat, FIntr)] true w23 = true /\
+  deviations None [(0%nat, FThrow); (1%nat, FIntr)] w23 = [23%nat].
+Proof. vm_compute. auto. Qed.
+
+(* ---- the job queue after an outermost RunProgram / Callable (repaired algorithm) ---- *)
 Lemma leave_norm_jq : forall lim faults fixed fuel s s',
   leave lim faults fixed fuel s = (s', ONorm) -> jq s' = [].
 Proof.
   intros lim faults fixed. induction fuel as [|f IH]; intros s s' H. { simpl in H. discriminate. }
   rewrite leave_S in H. destruct (jq s) eqn:J. { inversion H; subst. exact J. }
-  destruct (run_batch lim fixed (Model.exec lim faults fixed f) (j :: l) (set_jq [] s)) as [s1 o].
+  destruct (run_batch lim (Model.exec lim faults fixed f) (j :: l) (set_jq [] s)) as [s1 o].
   destruct o; try discriminate. eapply IH; eauto.
 Qed.
 
 Definition go_outcome (o : outcome) : Prop := o = ONorm \/ exists p, o = OPanic p.
 
 Lemma top_recover_jq : forall inb s p,
-  length (cs (fst (fst (top_recover true inb s p)))) = 0%nat -> jq (fst (fst (top_recover true inb s p))) = [].
+  length (cs (fst (fst (top_recover inb s p)))) = 0%nat -> jq (fst (fst (top_recover inb s p))) = [].
 Proof.
   intros inb s p. unfold top_recover. destruct (uncatchable_err p); cbn [fst].
   - destruct (Nat.eqb (length (cs (top_fin s))) 0) eqn:E; [reflexivity|]. intros H. apply Nat.eqb_neq in E. contradiction.
@@ -322,92 +384,94 @@ Proof.
     destruct (Nat.eqb (length (cs (top_fin s))) 0) eqn:E; [reflexivity|]. cbn. intros H. apply Nat.eqb_neq in E. contradiction.
 Qed.
 
-Lemma top_leave_jq : forall lim faults f s2 err,
-  go_outcome (snd (fst (top_leave true (Model.leave lim faults true f) s2 err))) ->
-  length (cs (fst (fst (top_leave true (Model.leave lim faults true f) s2 err)))) = 0%nat ->
-  jq (fst (fst (top_leave true (Model.leave lim faults true f) s2 err))) = [].
+Lemma top_leave_jq : forall lim faults fixed f s2 err,
+  go_outcome (snd (fst (top_leave (Model.leave lim faults fixed f) s2 err))) ->
+  length (cs (fst (fst (top_leave (Model.leave lim faults fixed f) s2 err)))) = 0%nat ->
+  jq (fst (fst (top_leave (Model.leave lim faults fixed f) s2 err))) = [].
 Proof.
-  intros lim faults f s2 err. unfold top_leave.
-  destruct (Model.leave lim faults true f (set_sb (-1) (set_prg false (pop_try s2)))) as [s3 o] eqn:E.
+  intros lim faults fixed f s2 err. unfold top_leave.
+  destruct (Model.leave lim faults fixed f (set_sb (-1) (set_prg false (pop_try s2)))) as [s3 o] eqn:E.
   destruct o; cbn [fst snd]; intros G; try (destruct G as [G|(q & G)]; discriminate).
   - intros _. unfold top_fin. cbn. eapply leave_norm_jq; eauto.
   - apply top_recover_jq.
 Qed.
 
-Lemma run_top_jq : forall lim faults fuel body s,
-  go_outcome (snd (fst (Model.run_top lim faults true fuel body s))) ->
-  length (cs (fst (fst (Model.run_top lim faults true fuel body s)))) = 0%nat ->
-  jq (fst (fst (Model.run_top lim faults true fuel body s))) = [].
+Lemma run_top_jq : forall lim faults fixed fuel body s,
+  go_outcome (snd (fst (Model.run_top lim faults fixed fuel body s))) ->
+  length (cs (fst (fst (Model.run_top lim faults fixed fuel body s)))) = 0%nat ->
+  jq (fst (fst (Model.run_top lim faults fixed fuel body s))) = [].
 Proof.
-  intros lim faults fuel body s. destruct fuel as [|f]. { simpl. intros [G|(q & G)]; discriminate. }
-  change (Model.run_top lim faults true (S f) body s)
-    with (run_top_step true (Model.exec lim faults true f) (Model.leave lim faults true f) body s).
+  intros lim faults fixed fuel body s. destruct fuel as [|f]. { simpl. intros [G|(q & G)]; discriminate. }
+  change (Model.run_top lim faults fixed (S f) body s)
+    with (run_top_step (Model.exec lim faults fixed f) (Model.leave lim faults fixed f) body s).
   unfold run_top_step.
-  destruct (loop_out (run_items (Model.exec lim faults true f) body
+  destruct (loop_out (run_items (Model.exec lim faults fixed f) body
               (push_try true false false (set_prg true (set_cs (halt_ctx :: cs s) s))))) as [s2 o].
   destruct o; try (cbn [fst snd]; intros [G|(q & G)]; discriminate).
   - apply top_leave_jq.
   - destruct (catchable p). apply top_leave_jq. intros _. apply top_recover_jq.
 Qed.
 
-Lemma run_wrapped_jq : forall lim faults f body s,
-  go_outcome (snd (fst (run_wrapped lim true (Model.exec lim faults true f) (Model.leave lim faults true f) body s))) ->
-  length (cs (fst (fst (run_wrapped lim true (Model.exec lim faults true f) (Model.leave lim faults true f) body s)))) = 0%nat ->
-  jq (fst (fst (run_wrapped lim true (Model.exec lim faults true f) (Model.leave lim faults true f) body s))) = [].
+Lemma run_wrapped_jq : forall lim faults fixed f body s,
+  go_outcome (snd (fst (run_wrapped lim (Model.exec lim faults fixed f) (Model.leave lim faults fixed f) body s))) ->
+  length (cs (fst (fst (run_wrapped lim (Model.exec lim faults fixed f) (Model.leave lim faults fixed f) body s)))) = 0%nat ->
+  jq (fst (fst (run_wrapped lim (Model.exec lim faults fixed f) (Model.leave lim faults fixed f) body s))) = [].
 Proof.
-  intros lim faults f body s. unfold run_wrapped.
-  assert (Hrec : forall s1 p, length (cs (fst (fst (recover_wrapped true s1 p)))) = 0%nat ->
-                              jq (fst (fst (recover_wrapped true s1 p))) = []).
+  intros lim faults fixed f body s. unfold run_wrapped.
+  assert (Hrec : forall s1 p, length (cs (fst (fst (recover_wrapped s1 p)))) = 0%nat ->
+                              jq (fst (fst (recover_wrapped s1 p))) = []).
   { intros s1 p. unfold recover_wrapped. destruct (uncatchable_err p); cbn [fst].
     - destruct (Nat.eqb (length (cs s1)) 0) eqn:E; [reflexivity|]. intros H. apply Nat.eqb_neq in E. contradiction.
     - unfold host_panic_exit. destruct (Nat.eqb (length (cs s1)) 0) eqn:E; [reflexivity|]. intros H. apply Nat.eqb_neq in E. contradiction. }
   assert (Htail : forall s1 err,
-            go_outcome (snd (fst (wrapped_tail true (Model.leave lim faults true f) s1 err))) ->
-            length (cs (fst (fst (wrapped_tail true (Model.leave lim faults true f) s1 err)))) = 0%nat ->
-            jq (fst (fst (wrapped_tail true (Model.leave lim faults true f) s1 err))) = []).
+            go_outcome (snd (fst (wrapped_tail (Model.leave lim faults fixed f) s1 err))) ->
+            length (cs (fst (fst (wrapped_tail (Model.leave lim faults fixed f) s1 err)))) = 0%nat ->
+            jq (fst (fst (wrapped_tail (Model.leave lim faults fixed f) s1 err))) = []).
   { intros s1 err. unfold wrapped_tail. destruct (Nat.eqb (length (cs s1)) 0) eqn:E.
-    - destruct (Model.leave lim faults true f s1) as [s2 o] eqn:El.
+    - destruct (Model.leave lim faults fixed f s1) as [s2 o] eqn:El.
       destruct o; cbn [fst snd]; intros G; try (destruct G as [G|(q & G)]; discriminate).
       + intros _. eapply leave_norm_jq; eauto.
       + apply Hrec.
     - cbn [fst snd]. intros _ H. apply Nat.eqb_neq in E. contradiction. }
-  destruct (vm_try (reentry lim (Model.exec lim faults true f) 0 body) s) as [s1 o].
+  destruct (vm_try (reentry lim (Model.exec lim faults fixed f) 0 body) s) as [s1 o].
   destruct o; try (cbn [fst snd]; intros [G|(q & G)]; discriminate).
   - apply Htail.
   - apply Htail.
   - intros _. apply Hrec.
 Qed.
 
-(* idle, and the job queue empty, after every outermost RunProgram / Callable of the current algorithm *)
-Theorem idle_restored_jobs : forall lim faults fuel body st,
+(* idle, and the job queue empty, after every outermost RunProgram / Callable that ran into no deviation *)
+Theorem idle_restored_jobs : forall lim faults fixed fuel body st,
   idle_regs st = true ->
-  (snd (api_exec lim faults true fuel (ARun body) st) <> RStuck ->
-   idle_regs (fst (api_exec lim faults true fuel (ARun body) st)) = true /\
-   jq (fst (api_exec lim faults true fuel (ARun body) st)) = []) /\
-  (snd (api_exec lim faults true fuel (ACall body) st) <> RStuck ->
-   idle_regs (fst (api_exec lim faults true fuel (ACall body) st)) = true /\
-   jq (fst (api_exec lim faults true fuel (ACall body) st)) = []).
+  (snd (api_exec lim faults fixed fuel (ARun body) st) <> RStuck ->
+   no_new_deviation fixed st (fst (api_exec lim faults fixed fuel (ARun body) st)) ->
+   idle_regs (fst (api_exec lim faults fixed fuel (ARun body) st)) = true /\
+   jq (fst (api_exec lim faults fixed fuel (ARun body) st)) = []) /\
+  (snd (api_exec lim faults fixed fuel (ACall body) st) <> RStuck ->
+   no_new_deviation fixed st (fst (api_exec lim faults fixed fuel (ACall body) st)) ->
+   idle_regs (fst (api_exec lim faults fixed fuel (ACall body) st)) = true /\
+   jq (fst (api_exec lim faults fixed fuel (ACall body) st)) = []).
 Proof.
-  intros lim faults fuel body st Hi.
+  intros lim faults fixed fuel body st Hi.
   pose proof (idle_regs_spec st Hi) as (_ & _ & _ & _ & _ & Hcs & _).
-  split; intros Hs.
-  - pose proof (idle_restored lim faults fuel (ARun body) st Hi Hs) as I1. split; [exact I1|].
-    apply idle_regs_spec in I1. destruct I1 as (_ & _ & _ & _ & _ & Hcs' & _).
+  split; intros Hs Gd.
+  - pose proof (idle_restored_partial lim faults fixed fuel (ARun body) st Hi Hs Gd) as I1. split; [exact I1|].
+    apply idle_regs_spec in I1. destruct I1 as (_ & _ & _ & _ & _ & Hcs' & _). clear Gd.
     simpl in *. destruct fuel as [|f]. { simpl in Hs. congruence. }
     rewrite exec_S in *. simpl in *. rewrite Hcs in *. simpl in *.
-    pose proof (run_top_jq lim faults f body st) as J.
-    destruct (Model.run_top lim faults true f body st) as [[s1 o] e]. simpl in J.
+    pose proof (run_top_jq lim faults fixed f body st) as J.
+    destruct (Model.run_top lim faults fixed f body st) as [[s1 o] e]. simpl in J.
     destruct o; simpl in *; try congruence.
     + destruct e as [p|]; simpl in *.
       * unfold policy in *. rewrite andb_false_r in *. simpl in *. apply J; [left; reflexivity | rewrite Hcs'; reflexivity].
       * apply J; [left; reflexivity | rewrite Hcs'; reflexivity].
     + apply J. right; eauto. rewrite Hcs'. reflexivity.
-  - pose proof (idle_restored lim faults fuel (ACall body) st Hi Hs) as I1. split; [exact I1|].
-    apply idle_regs_spec in I1. destruct I1 as (_ & _ & _ & _ & _ & Hcs' & _).
+  - pose proof (idle_restored_partial lim faults fixed fuel (ACall body) st Hi Hs Gd) as I1. split; [exact I1|].
+    apply idle_regs_spec in I1. destruct I1 as (_ & _ & _ & _ & _ & Hcs' & _). clear Gd.
     simpl in *. destruct fuel as [|f]. { simpl in Hs. congruence. }
     rewrite exec_S in *. simpl in *.
-    pose proof (run_wrapped_jq lim faults f body st) as J.
-    destruct (run_wrapped lim true (Model.exec lim faults true f) (Model.leave lim faults true f) body st) as [[s1 o] e]. simpl in J.
+    pose proof (run_wrapped_jq lim faults fixed f body st) as J.
+    destruct (run_wrapped lim (Model.exec lim faults fixed f) (Model.leave lim faults fixed f) body st) as [[s1 o] e]. simpl in J.
     destruct o; simpl in *; try congruence.
     + destruct e as [p|]; simpl in *.
       * unfold policy in *. rewrite andb_false_r in *. simpl in *. apply J; [left; reflexivity | rewrite Hcs'; reflexivity].
